@@ -123,3 +123,16 @@ Proof.
   intros ws bsize script Hb H. destruct (tbs_run_ok ws bsize (os_init [] script) Hb H) as (o' & E & S).
   exists o'. split; [exact E|exact S].
 Qed.
+
+(* tool level for C02: remove_long_lines with a limit no line exceeds, with the window the constructor computes *)
+Lemma C02_identity_filter_tool_proof :
+  forall page min_buffer bcap src rscript wscript,
+  1 <= page -> no_err rscript = true -> no_err wscript = true -> detect_magic src = false ->
+  line_filter_tool (fun _ => true) (initial_cap page min_buffer) bcap src rscript wscript
+  = Ok (unrecords 10%Z (records 10%Z true src)).
+Proof.
+  intros page mb bcap src rs ws Hp Hr Hw Hm.
+  destruct (initial_cap_ok page mb Hp) as [_ Hc].
+  rewrite (C03_line_filter_tool_output_proof (fun _ => true) (initial_cap page mb) bcap src rs ws Hc Hr Hw Hm).
+  f_equal. f_equal. induction (records 10%Z true src) as [|r l IH]; [reflexivity|]. simpl. f_equal. exact IH.
+Qed.
